@@ -22,15 +22,27 @@ pub enum Mode {
     Read(Api),
     /// Index documents: parse the (mutated) index, then `query` / `query_unmapped` the valid data file with it.
     Query,
+    /// Data documents that have an index: region queries of the (mutated) data with the valid index.
+    QueryData,
 }
 
 impl Mode {
-    fn name(self) -> String {
+    pub fn name(self) -> String {
         match self {
             Mode::Read(a) => format!("{a:?}"),
             Mode::Query => "Query".into(),
+            Mode::QueryData => "QueryData".into(),
         }
     }
+}
+
+/// The valid counterpart of a query case (the data file of a mutated index, or the index of mutated data).
+#[derive(Clone, Debug)]
+pub struct Other {
+    pub format: Format,
+    pub set: String,
+    pub name: String,
+    pub bytes: Arc<Vec<u8>>,
 }
 
 #[derive(Clone, Copy, Debug, PartialEq, Eq, Hash)]
@@ -74,7 +86,7 @@ impl Table {
     }
 }
 
-pub const FIELD_SLOTS: u64 = 12;
+pub const FIELD_SLOTS: u64 = mutate::MAX_FIELD_VALUES as u64;
 
 // ------------------------------------------------------------------------------------------ codecs
 
@@ -213,7 +225,7 @@ pub fn valid_streams(thorough: bool) -> Vec<ValidStream> {
         if *name == "abracadabra x3" {
             push(Codec::Fqzcomp, format!("one record of {name}"), vmc::catch(|| cv::fqzcomp_encode(&[n], src)));
         }
-        if n >= 10 && *name == "abracadabra x3" {
+        if n >= 10 && *name == "abracadabra x3" && thorough {
             push(Codec::Fqzcomp, format!("two records of {name}"), vmc::catch(|| cv::fqzcomp_encode(&[10, n - 10], src)));
         }
         push(Codec::Gzip(n), format!("gzip of {name}"), Ok(Ok(mutate::gzip(src))));
@@ -251,6 +263,8 @@ pub fn to_hex(b: &[u8]) -> String {
 pub struct Plan {
     pub thorough: bool,
     pub docs: Vec<Doc>,
+    /// For every document: the valid counterpart used by the query modes.
+    pub others: Vec<Option<Other>>,
     pub prep: Vec<Option<mutate::BgzfDoc>>,
     pub trunc: Table,
     pub subst: Table,
@@ -286,9 +300,22 @@ fn layer_fields(d: &Doc, layer: Layer) -> &[Field] {
 
 impl Plan {
     pub fn new(thorough: bool) -> Self {
-        let docs: Vec<Doc> = vnd::corpus(thorough);
+        let mut docs: Vec<Doc> = vnd::corpus(thorough);
+        docs.extend(vnd::extra(thorough));
+        // counterpart: an index document points to its data; a data document to the first index built for it
+        let others: Vec<Option<Other>> = docs
+            .iter()
+            .map(|d| {
+                let o = match &d.index_of {
+                    Some(n) => docs.iter().find(|x| &x.name == n),
+                    None => docs.iter().find(|x| x.index_of.as_deref() == Some(d.name.as_str()) && !x.name.contains("no-n_no_coor")),
+                };
+                o.map(|x| Other { format: x.format, set: x.set.clone(), name: x.name.clone(), bytes: x.bytes.clone() })
+            })
+            .collect();
         let prep: Vec<Option<mutate::BgzfDoc>> = docs.iter().map(|d| if d.format.is_bgzf() { Some(mutate::BgzfDoc::new(d)) } else { None }).collect();
         let n_sub = if thorough { 255 } else { 6 };
+        let n_corpus = vnd::corpus(thorough).len();
         // thorough: all 255 values on the documents that are also in the quick corpus, the six-value alphabet on
         // the additional thorough documents (stated in the evidence)
         let quick_names: std::collections::HashSet<String> = if thorough { vnd::corpus(false).iter().map(|d| d.name.clone()).collect() } else { Default::default() };
@@ -296,25 +323,42 @@ impl Plan {
         let mut subst = Vec::new();
         let mut fields = Vec::new();
         for (i, d) in docs.iter().enumerate() {
-            if d.big {
+            // raw streams and most padded layouts are C12 documents; here one padded BAM / BCF (with a block boundary
+            // inside the padding) is enough: the record layers are those of the base documents
+            if d.big || d.raw || (d.equiv_of.is_some() && !d.name.ends_with("padded64-split")) {
                 continue;
             }
             let mut modes: Vec<Mode> = Api::all_for(d.format).iter().map(|a| Mode::Read(*a)).collect();
-            if matches!(d.format, Format::Bai | Format::Csi | Format::Tbi) && d.index_of.is_some() {
+            if matches!(d.format, Format::Bai | Format::Csi | Format::Tbi | Format::Crai) && d.index_of.is_some() && others[i].is_some() {
                 modes.push(Mode::Query);
             }
+            let text_gz = d.format == Format::Bgzf && d.set.ends_with(".gz");
+            if d.index_of.is_none() && others[i].is_some() && (text_gz || matches!(d.format, Format::Bam | Format::Bcf | Format::VcfGz | Format::SamGz | Format::Cram)) {
+                modes.push(Mode::QueryData);
+            }
             let mut layers = vec![Layer::Outer];
-            if d.inner.is_some() && d.format != Format::Bgzf {
+            if d.inner.is_some() && (d.format != Format::Bgzf || text_gz) {
                 layers.push(Layer::Inner);
             }
             for &layer in &layers {
                 for &mode in &modes {
+                    // queries of mutated data: the uncompressed layer only (frame-level mutations behave as when read
+                    // sequentially), and no separate field stage (the field values are exercised by the read modes)
+                    if mode == Mode::QueryData && layer == Layer::Outer && layers.len() > 1 {
+                        continue;
+                    }
                     let len = layer_len(d, layer) as u64;
-                    let ns = if !thorough || quick_names.contains(&d.name) { n_sub } else { 6 };
+                    // text layers additionally get the structural characters (LF, TAB, CR, ' ', ';', '=', '#', '0')
+                    let is_text = match layer {
+                        Layer::Outer => d.format.is_text(),
+                        Layer::Inner => text_gz || matches!(d.format, Format::SamGz | Format::VcfGz | Format::Crai),
+                    };
+                    let quick_ns = if is_text { 14 } else { 6 };
+                    let ns = if thorough && (quick_names.contains(&d.name) || (d.equiv_of.is_none() && i >= n_corpus && is_text)) { 255 } else { quick_ns };
                     trunc.push(Row { doc: i, layer, mode, n: len, n_sub: ns });
                     subst.push(Row { doc: i, layer, mode, n: len * ns, n_sub: ns });
                     let nf = layer_fields(d, layer).len() as u64;
-                    if nf > 0 {
+                    if nf > 0 && mode != Mode::QueryData {
                         fields.push(Row { doc: i, layer, mode, n: nf * FIELD_SLOTS, n_sub: ns });
                     }
                 }
@@ -346,7 +390,7 @@ impl Plan {
             stream_starts.push(t);
             t += s.bytes.len() as u64 * stream_n_sub(s, n_sub) + s.bytes.len() as u64;
         }
-        Self { thorough, docs, prep, trunc: Table::new(trunc), subst: Table::new(subst), fields: Table::new(fields), n_sub, codecs, max_len, streams, stream_starts, stream_total: t }
+        Self { thorough, docs, others, prep, trunc: Table::new(trunc), subst: Table::new(subst), fields: Table::new(fields), n_sub, codecs, max_len, streams, stream_starts, stream_total: t }
     }
 
     fn strings_total(&self) -> u64 {
@@ -376,7 +420,7 @@ impl Plan {
         if n_sub == 255 {
             return Some(b.wrapping_add(1 + j as u8));
         }
-        let vals = [0x00, 0xff, b ^ 0x01, b ^ 0x80, b.wrapping_add(1), b.wrapping_sub(1)];
+        let vals = [0x00, 0xff, b ^ 0x01, b ^ 0x80, b.wrapping_add(1), b.wrapping_sub(1), b'\n', b'\t', b'\r', b' ', b';', b'=', b'#', b'0'];
         let v = vals[j as usize];
         if v == b || vals[..j as usize].contains(&v) { None } else { Some(v) }
     }
@@ -514,20 +558,19 @@ fn norm_msg(s: &str) -> String {
 }
 
 /// Runs one document-level input; returns the verdict (panics propagate).
-pub fn exec_doc(plan_docs: &[Doc], format: Format, mode: Mode, bed_n: usize, data: Option<&str>, bytes: &[u8]) -> Result<(u64, bool), (String, String)> {
-    let log = match mode {
-        Mode::Read(api) => {
+pub fn exec_doc(format: Format, set: &str, mode: Mode, bed_n: usize, raw: bool, other: Option<&Other>, bytes: &[u8]) -> Result<(u64, bool), (String, String)> {
+    let log = match (mode, other) {
+        (Mode::Read(api), _) => {
             let mut o = Opts::new(bytes.len()).api(api);
             o.bed_n = bed_n;
+            o.raw = raw;
             vnd::read_log(format, bytes, &o)
         }
-        Mode::Query => {
-            let data = data.and_then(|n| plan_docs.iter().find(|d| d.name == n));
-            match data {
-                Some(d) => query_log(format, d, bytes),
-                None => vec!["end: EOF".into()],
-            }
-        }
+        // bytes = mutated index, other = valid data
+        (Mode::Query, Some(o)) => query_log(o.format, &o.set, &o.bytes, format, bytes),
+        // bytes = mutated data, other = valid index
+        (Mode::QueryData, Some(o)) => query_log(format, set, bytes, o.format, &o.bytes),
+        _ => vec!["end: EOF".into()],
     };
     for l in &log {
         if let Some(p) = l.find(vnd::NONTERM) {
@@ -561,136 +604,283 @@ fn regions_for(names: &[String]) -> Vec<String> {
     v
 }
 
-/// Parses a (mutated) index and queries the valid data document with it.
-pub fn query_log(format: Format, data: &Doc, index_bytes: &[u8]) -> Vec<String> {
-    let lim = vnd::Limits::for_input(data.bytes.len() + index_bytes.len());
-    let cap = data.bytes.len() + index_bytes.len() + 1000;
-    let mut log = Vec::new();
-    macro_rules! run_queries {
-        ($reader:expr, $header:expr, $index:expr, $names:expr, $render:expr) => {{
-            for region in regions_for(&$names) {
-                let Ok(region) = region.parse::<noodles_core::Region>() else { continue };
-                match $reader.query(&$header, &$index, &region) {
-                    Err(e) => log.push(format!("query {region}: {}", vnd::render_err(&e))),
-                    Ok(q) => {
-                        let mut n = 0usize;
-                        for r in q.records() {
-                            if n > cap {
-                                log.push(format!("end: {}query::Records", vnd::NONTERM));
-                                return log;
-                            }
-                            match r {
-                                Ok(rec) => log.push(format!("query {region} rec[{n}]: {}", $render(&rec))),
-                                Err(e) => {
-                                    log.push(format!("query {region}: {}", vnd::render_err(&e)));
-                                    break;
-                                }
-                            }
-                            n += 1;
-                        }
-                    }
-                }
+/// Drains a query iterator (capped), rendering every record; returns false when the cap was exceeded.
+fn drain<T>(log: &mut Vec<String>, what: &str, cap: usize, ty: &str, it: impl Iterator<Item = io::Result<T>>, mut render: impl FnMut(&T) -> String) -> bool {
+    let mut n = 0usize;
+    for r in it {
+        if n > cap {
+            log.push(format!("end: {}{ty}", vnd::NONTERM));
+            return false;
+        }
+        match r {
+            Ok(rec) => log.push(format!("{what} rec[{n}]: {}", render(&rec))),
+            Err(e) => {
+                log.push(format!("{what}: {}", vnd::render_err(&e)));
+                break;
             }
-        }};
+        }
+        n += 1;
     }
-    match (data.format, format) {
-        (Format::Bam, Format::Bai) | (Format::Bam, Format::Csi) => {
-            let mut reader = bam::io::Reader::new(Cursor::new(&data.bytes[..]));
-            let header = match reader.read_header() {
-                Ok(h) => h,
-                Err(e) => return vec![vnd::end_err(&e)],
-            };
-            let names: Vec<String> = header.reference_sequences().keys().map(|k| k.to_string()).collect();
-            let index = match bam::bai::io::Reader::new(index_bytes).read_index() {
-                Ok(i) => i,
-                Err(e) => return vec![vnd::end_err(&e)],
-            };
-            run_queries!(reader, header, index, names, |rec: &bam::Record| vnd::render_alignment_record(&header, rec, &lim));
-            match reader.query_unmapped(&index) {
-                Err(e) => log.push(format!("query_unmapped: {}", vnd::render_err(&e))),
-                Ok(it) => {
-                    let mut n = 0usize;
-                    for r in it {
-                        if n > cap {
-                            log.push(format!("end: {}bam::io::Reader::query_unmapped", vnd::NONTERM));
-                            return log;
-                        }
-                        match r {
-                            Ok(rec) => log.push(format!("unmapped rec[{n}]: {}", vnd::render_alignment_record(&header, &rec, &lim))),
-                            Err(e) => {
-                                log.push(format!("query_unmapped: {}", vnd::render_err(&e)));
-                                break;
-                            }
-                        }
-                        n += 1;
-                    }
+    true
+}
+
+fn regions(names: &[String]) -> Vec<noodles_core::Region> {
+    regions_for(names).iter().filter_map(|r| r.parse().ok()).collect()
+}
+
+fn bam_queries<I: csi::BinningIndex>(log: &mut Vec<String>, data: &[u8], index: &I, lim: &vnd::Limits, cap: usize) -> bool {
+    let mut reader = bam::io::Reader::new(Cursor::new(data));
+    let header = match reader.read_header() {
+        Ok(h) => h,
+        Err(e) => {
+            log.push(format!("header: {}", vnd::render_err(&e)));
+            return true;
+        }
+    };
+    let names: Vec<String> = header.reference_sequences().keys().map(|k| k.to_string()).collect();
+    for region in regions(&names) {
+        match reader.query(&header, index, &region) {
+            Err(e) => log.push(format!("query {region}: {}", vnd::render_err(&e))),
+            Ok(q) => {
+                if !drain(log, &format!("query {region}"), cap, "bam::io::reader::query::Records", q.records(), |rec| vnd::render_alignment_record(&header, rec, lim)) {
+                    return false;
                 }
             }
         }
-        (Format::Bcf, Format::Csi) => {
-            let mut reader = bcf::io::Reader::new(Cursor::new(&data.bytes[..]));
-            let header = match reader.read_header() {
-                Ok(h) => h,
-                Err(e) => return vec![vnd::end_err(&e)],
-            };
-            let names: Vec<String> = header.contigs().keys().map(|k| k.to_string()).collect();
-            let index = match csi::io::Reader::new(index_bytes).read_index() {
-                Ok(i) => i,
-                Err(e) => return vec![vnd::end_err(&e)],
-            };
-            run_queries!(reader, header, index, names, |rec: &bcf::Record| vnd::render_variant_record(&header, rec, &lim));
+    }
+    match reader.query_unmapped(index) {
+        Err(e) => log.push(format!("query_unmapped: {}", vnd::render_err(&e))),
+        Ok(it) => {
+            if !drain(log, "unmapped", cap, "bam::io::Reader::query_unmapped", it, |rec| vnd::render_alignment_record(&header, rec, lim)) {
+                return false;
+            }
         }
-        (Format::VcfGz, Format::Tbi) => {
-            let mut reader = vcf::io::Reader::new(bgzf::io::Reader::new(Cursor::new(&data.bytes[..])));
-            let header = match reader.read_header() {
-                Ok(h) => h,
-                Err(e) => return vec![vnd::end_err(&e)],
-            };
-            let names: Vec<String> = header.contigs().keys().map(|k| k.to_string()).collect();
-            let index = match tabix::io::Reader::new(index_bytes).read_index() {
+    }
+    true
+}
+
+fn sam_queries<I: csi::BinningIndex>(log: &mut Vec<String>, data: &[u8], index: &I, lim: &vnd::Limits, cap: usize) -> bool {
+    let mut reader = noodles_sam::io::Reader::new(bgzf::io::Reader::new(Cursor::new(data)));
+    let header = match reader.read_header() {
+        Ok(h) => h,
+        Err(e) => {
+            log.push(format!("header: {}", vnd::render_err(&e)));
+            return true;
+        }
+    };
+    let names: Vec<String> = header.reference_sequences().keys().map(|k| k.to_string()).collect();
+    for region in regions(&names) {
+        match reader.query(&header, index, &region) {
+            Err(e) => log.push(format!("query {region}: {}", vnd::render_err(&e))),
+            Ok(q) => {
+                if !drain(log, &format!("query {region}"), cap, "sam::io::reader::Query", q.records(), |rec| vnd::render_alignment_record(&header, rec, lim)) {
+                    return false;
+                }
+            }
+        }
+    }
+    match reader.query_unmapped(index) {
+        Err(e) => log.push(format!("query_unmapped: {}", vnd::render_err(&e))),
+        Ok(it) => {
+            if !drain(log, "unmapped", cap, "sam::io::Reader::query_unmapped", it, |rec| vnd::render_alignment_record(&header, rec, lim)) {
+                return false;
+            }
+        }
+    }
+    true
+}
+
+fn bcf_queries<I: csi::BinningIndex>(log: &mut Vec<String>, data: &[u8], index: &I, lim: &vnd::Limits, cap: usize) -> bool {
+    let mut reader = bcf::io::Reader::new(Cursor::new(data));
+    let header = match reader.read_header() {
+        Ok(h) => h,
+        Err(e) => {
+            log.push(format!("header: {}", vnd::render_err(&e)));
+            return true;
+        }
+    };
+    let names: Vec<String> = header.contigs().keys().map(|k| k.to_string()).collect();
+    for region in regions(&names) {
+        match reader.query(&header, index, &region) {
+            Err(e) => log.push(format!("query {region}: {}", vnd::render_err(&e))),
+            Ok(q) => {
+                if !drain(log, &format!("query {region}"), cap, "bcf::io::reader::query::Records", q.records(), |rec| vnd::render_variant_record(&header, rec, lim)) {
+                    return false;
+                }
+            }
+        }
+    }
+    true
+}
+
+fn vcf_queries<I: csi::BinningIndex>(log: &mut Vec<String>, data: &[u8], index: &I, lim: &vnd::Limits, cap: usize) -> bool {
+    let mut reader = vcf::io::Reader::new(bgzf::io::Reader::new(Cursor::new(data)));
+    let header = match reader.read_header() {
+        Ok(h) => h,
+        Err(e) => {
+            log.push(format!("header: {}", vnd::render_err(&e)));
+            return true;
+        }
+    };
+    let mut names: Vec<String> = header.contigs().keys().map(|k| k.to_string()).collect();
+    if let Some(h) = index.header() {
+        for n in h.reference_sequence_names() {
+            let n = n.to_string();
+            if !names.contains(&n) {
+                names.push(n);
+            }
+        }
+    }
+    for region in regions(&names) {
+        match reader.query(&header, index, &region) {
+            Err(e) => log.push(format!("query {region}: {}", vnd::render_err(&e))),
+            Ok(q) => {
+                if !drain(log, &format!("query {region}"), cap, "vcf::io::reader::query::Records", q.records(), |rec| vnd::render_variant_record(&header, rec, lim)) {
+                    return false;
+                }
+            }
+        }
+    }
+    true
+}
+
+/// Region queries of bgzipped tab-delimited text through `csi::io::IndexedReader` (the generic tabix path).
+fn indexed_text_queries<I: csi::BinningIndex>(log: &mut Vec<String>, data: &[u8], index: I, cap: usize) -> bool {
+    use csi::io::IndexedRecord as _;
+    let names: Vec<String> = index.header().map(|h| h.reference_sequence_names().iter().map(|n| n.to_string()).collect()).unwrap_or_default();
+    let mut reader = csi::io::IndexedReader::new(Cursor::new(data), index);
+    for region in regions(&names) {
+        match reader.query(&region) {
+            Err(e) => log.push(format!("indexed query {region}: {}", vnd::render_err(&e))),
+            Ok(q) => {
+                if !drain(log, &format!("indexed query {region}"), cap, "csi::io::IndexedRecords", q, |rec| {
+                    format!("name={} start={} end={} line={}", vnd::esc(rec.indexed_reference_sequence_name()), rec.indexed_start_position(), rec.indexed_end_position(), vnd::esc(rec.as_ref()))
+                }) {
+                    return false;
+                }
+            }
+        }
+    }
+    true
+}
+
+fn cram_queries(log: &mut Vec<String>, data: &[u8], index: &noodles_cram::crai::Index, lim: &vnd::Limits, cap: usize) -> bool {
+    let repo = vnd::records::repository();
+    let mut reader = noodles_cram::io::reader::Builder::default().set_reference_sequence_repository(repo).build_from_reader(Cursor::new(data));
+    let header = match reader.read_header() {
+        Ok(h) => h,
+        Err(e) => {
+            log.push(format!("header: {}", vnd::render_err(&e)));
+            return true;
+        }
+    };
+    let names: Vec<String> = header.reference_sequences().keys().map(|k| k.to_string()).collect();
+    for region in regions(&names) {
+        match reader.query(&header, index, &region) {
+            Err(e) => log.push(format!("query {region}: {}", vnd::render_err(&e))),
+            Ok(q) => {
+                if !drain(log, &format!("query {region}"), cap, "cram::io::reader::Query", q.records(), |rec| vnd::render_alignment_record(&header, rec, lim)) {
+                    return false;
+                }
+            }
+        }
+    }
+    match reader.query_unmapped(&header, index) {
+        Err(e) => log.push(format!("query_unmapped: {}", vnd::render_err(&e))),
+        Ok(it) => {
+            if !drain(log, "unmapped", cap, "cram::io::Reader::query_unmapped", it, |rec| vnd::render_alignment_record(&header, rec, lim)) {
+                return false;
+            }
+        }
+    }
+    true
+}
+
+/// Parses the index and runs region queries (and `query_unmapped` where available) of the data with it. Either
+/// side may be the mutated one.
+pub fn query_log(data_format: Format, data_set: &str, data: &[u8], index_format: Format, index_bytes: &[u8]) -> Vec<String> {
+    let lim = vnd::Limits::for_input(data.len() + index_bytes.len());
+    let cap = data.len() + index_bytes.len() + 1000;
+    let mut log = Vec::new();
+    macro_rules! parse {
+        ($e:expr) => {
+            match $e {
                 Ok(i) => i,
                 Err(e) => return vec![vnd::end_err(&e)],
-            };
-            run_queries!(reader, header, index, names, |rec: &vcf::Record| vnd::render_variant_record(&header, rec, &lim));
+            }
+        };
+    }
+    let done = match (data_format, index_format) {
+        (Format::Bam, Format::Bai) => {
+            let index = parse!(bam::bai::io::Reader::new(index_bytes).read_index());
+            bam_queries(&mut log, data, &index, &lim, cap)
+        }
+        (Format::Bam, Format::Csi) => {
+            let index = parse!(csi::io::Reader::new(index_bytes).read_index());
+            bam_queries(&mut log, data, &index, &lim, cap)
         }
         (Format::SamGz, Format::Csi) => {
-            let mut reader = noodles_sam::io::Reader::new(bgzf::io::Reader::new(Cursor::new(&data.bytes[..])));
-            let header = match reader.read_header() {
-                Ok(h) => h,
-                Err(e) => return vec![vnd::end_err(&e)],
-            };
-            let names: Vec<String> = header.reference_sequences().keys().map(|k| k.to_string()).collect();
-            let index = match csi::io::Reader::new(index_bytes).read_index() {
-                Ok(i) => i,
-                Err(e) => return vec![vnd::end_err(&e)],
-            };
-            for region in regions_for(&names) {
-                let Ok(region) = region.parse::<noodles_core::Region>() else { continue };
-                match reader.query(&header, &index, &region) {
-                    Err(e) => log.push(format!("query {region}: {}", vnd::render_err(&e))),
-                    Ok(q) => {
-                        let mut n = 0usize;
-                        for r in q.records() {
-                            if n > cap {
-                                log.push(format!("end: {}sam::io::reader::Query", vnd::NONTERM));
-                                return log;
-                            }
-                            match r {
-                                Ok(rec) => log.push(format!("query {region} rec[{n}]: {}", vnd::render_alignment_record(&header, &rec, &lim))),
-                                Err(e) => {
-                                    log.push(format!("query {region}: {}", vnd::render_err(&e)));
+            let index = parse!(csi::io::Reader::new(index_bytes).read_index());
+            sam_queries(&mut log, data, &index, &lim, cap)
+        }
+        (Format::Bcf, Format::Csi) => {
+            let index = parse!(csi::io::Reader::new(index_bytes).read_index());
+            bcf_queries(&mut log, data, &index, &lim, cap)
+        }
+        (Format::VcfGz, Format::Tbi) => {
+            let index = parse!(tabix::io::Reader::new(index_bytes).read_index());
+            vcf_queries(&mut log, data, &index, &lim, cap) && indexed_text_queries(&mut log, data, index, cap)
+        }
+        (Format::VcfGz, Format::Csi) => {
+            let index = parse!(csi::io::Reader::new(index_bytes).read_index());
+            vcf_queries(&mut log, data, &index, &lim, cap) && indexed_text_queries(&mut log, data, index, cap)
+        }
+        (Format::Cram, Format::Crai) => {
+            let index = parse!(noodles_cram::crai::io::Reader::new(index_bytes).read_index());
+            cram_queries(&mut log, data, &index, &lim, cap)
+        }
+        (Format::Bgzf, Format::Tbi) => {
+            let index = parse!(tabix::io::Reader::new(index_bytes).read_index());
+            let names: Vec<String> = csi::BinningIndex::header(&index).map(|h| h.reference_sequence_names().iter().map(|n| n.to_string()).collect()).unwrap_or_default();
+            let mut ok = true;
+            match data_set {
+                "gff.gz" => {
+                    let mut reader = noodles_gff::io::Reader::new(bgzf::io::Reader::new(Cursor::new(data)));
+                    for region in regions(&names) {
+                        match reader.query(&index, &region) {
+                            Err(e) => log.push(format!("query {region}: {}", vnd::render_err(&e))),
+                            Ok(q) => {
+                                if !drain(&mut log, &format!("query {region}"), cap, "gff::io::Reader::query", q, |rec| vnd::render_feature_record(rec, &lim)) {
+                                    ok = false;
                                     break;
                                 }
                             }
-                            n += 1;
                         }
                     }
                 }
+                "gtf.gz" => {
+                    let mut reader = noodles_gtf::io::Reader::new(bgzf::io::Reader::new(Cursor::new(data)));
+                    for region in regions(&names) {
+                        match reader.query(&index, &region) {
+                            Err(e) => log.push(format!("query {region}: {}", vnd::render_err(&e))),
+                            Ok(q) => {
+                                if !drain(&mut log, &format!("query {region}"), cap, "gtf::io::Reader::query", q, |rec| vnd::render_feature_record(rec, &lim)) {
+                                    ok = false;
+                                    break;
+                                }
+                            }
+                        }
+                    }
+                }
+                _ => {}
             }
+            ok && indexed_text_queries(&mut log, data, index, cap)
         }
-        _ => {}
+        _ => true,
+    };
+    if done {
+        log.push(vnd::end_eof());
     }
-    log.push(vnd::end_eof());
     log
 }
 
@@ -698,9 +888,10 @@ fn bed_n_of(d: &Doc) -> usize {
     if d.name.starts_with("bed3") { 3 } else { 6 }
 }
 
-pub fn payload_doc(format: Format, mode: Mode, bed_n: usize, data: Option<&str>, bytes: &[u8]) -> String {
+pub fn payload_doc(format: Format, set: &str, mode: Mode, bed_n: usize, raw: bool, other: Option<&Other>, bytes: &[u8]) -> String {
     vmc::json!({
-        "kind": "doc", "format": format.name(), "mode": mode.name(), "bed_n": bed_n, "data": data, "input_hex": to_hex(bytes),
+        "kind": "doc", "format": format.name(), "set": set, "mode": mode.name(), "bed_n": bed_n, "raw": raw, "input_hex": to_hex(bytes),
+        "other": other.map(|o| vmc::json!({"format": o.format.name(), "set": o.set, "name": o.name, "hex": to_hex(&o.bytes)})),
     })
     .to_string()
 }
@@ -735,14 +926,15 @@ impl Stages for Plan {
         }
         let Some((row, bytes, what)) = self.input(stage, case) else { return Verdict::Trivial };
         let d = &self.docs[row.doc];
-        match exec_doc(&self.docs, d.format, row.mode, bed_n_of(d), d.index_of.as_deref(), &bytes) {
+        let other = self.others[row.doc].as_ref();
+        match exec_doc(d.format, &d.set, row.mode, bed_n_of(d), d.raw, other, &bytes) {
             Ok((class, ok)) => Verdict::Fine { class, ok },
             Err((fp, observed)) => Verdict::Violation(Finding {
                 fingerprint: format!("{} {fp}", self.fp_prefix(stage, case)),
                 decoded: self.decoded(row, &what, &bytes),
                 expected: "Ok or io::Error after finitely many steps".into(),
                 observed,
-                payload: payload_doc(d.format, row.mode, bed_n_of(d), d.index_of.as_deref(), &bytes),
+                payload: payload_doc(d.format, &d.set, row.mode, bed_n_of(d), d.raw, other, &bytes),
                 stage,
                 case,
             }),
@@ -759,7 +951,7 @@ impl Stages for Plan {
             None => ("trivial case".into(), String::new(), "{}".into()),
             Some((row, bytes, what)) => {
                 let d = &self.docs[row.doc];
-                (self.decoded(row, &what, &bytes), String::new(), payload_doc(d.format, row.mode, bed_n_of(d), d.index_of.as_deref(), &bytes))
+                (self.decoded(row, &what, &bytes), String::new(), payload_doc(d.format, &d.set, row.mode, bed_n_of(d), d.raw, self.others[row.doc].as_ref(), &bytes))
             }
         }
     }
@@ -775,7 +967,9 @@ impl Stages for Plan {
             _ => self.fields.locate(case).0,
         };
         let d = &self.docs[row.doc];
-        format!("format={} entry={}", d.format, row.mode.name())
+        // bgzipped indexed text is a Format::Bgzf document whose `set` names the text format
+        let fmt = if d.format == Format::Bgzf && d.set.ends_with(".gz") && row.mode == Mode::QueryData { d.set.clone() } else { d.format.name().to_string() };
+        format!("format={fmt} entry={}{}", row.mode.name(), if d.raw { "(raw)" } else { "" })
     }
 }
 
@@ -789,7 +983,11 @@ impl Plan {
             if row.layer == Layer::Inner { ", re-sealed" } else if d.format == Format::Cram { ", CRC32s re-sealed" } else { "" },
             d.format,
             row.mode.name(),
-            d.index_of.as_ref().map(|n| format!(" data={n}")).unwrap_or_default(),
+            match (row.mode, &self.others[row.doc]) {
+                (Mode::Query, Some(o)) => format!(" valid data={}", o.name),
+                (Mode::QueryData, Some(o)) => format!(" valid index={}", o.name),
+                _ => String::new(),
+            },
             bytes.len(),
             to_hex(bytes)
         )
